@@ -461,6 +461,9 @@ class Gen:
                     else:
                         e = ('bin', '*', lv, ('lit', pt, 1 if pt in '%&' else 1.0))
                     self.features.add('byval-identity')
+                elif lvs and r.random() < 0.3:
+                    # (x), (a(i)), (r.f): parentheses make any lvalue an expression
+                    e = r.choice(lvs)
                 if e[0] in ('var', 'elem', 'fld'):
                     e = ('par', e)
                     self.features.add('byval-paren')
